@@ -196,7 +196,7 @@ func runOps(w anyWriter, sink *iox.Sink, data []byte, ops []gen.Op, nextSink fun
 				}
 				chunk := data[off:end]
 				off = end
-				r.RetN, r.Err = w.Write(chunk)
+				r.RetN, r.Err = writeReused(w, chunk)
 			case "F":
 				r.Err = w.Flush()
 			case "C":
